@@ -327,6 +327,11 @@ func gqid(buf []byte, qid *Qid) []byte {
 
 func gstat(buf []byte, d *Dir, dotu bool) ([]byte, error) {
 	sz := len(buf)
+	if sz < 2+2+4+13+4+4+4+8 {
+		s := fmt.Sprintf("Buffer too short for basic 9p: need %d, have %d",
+			49, sz)
+		return nil, &Error{s, EINVAL}
+	}
 	d.Size, buf = gint16(buf)
 	d.Type, buf = gint16(buf)
 	d.Dev, buf = gint32(buf)
@@ -362,6 +367,9 @@ func gstat(buf []byte, d *Dir, dotu bool) ([]byte, error) {
 			return nil, &Error{"d.Ext failed", EINVAL}
 		}
 
+		if len(buf) < 4+4+4 {
+			return nil, &Error{"d.Uidnum failed", EINVAL}
+		}
 		d.Uidnum, buf = gint32(buf)
 		d.Gidnum, buf = gint32(buf)
 		d.Muidnum, buf = gint32(buf)
